@@ -63,6 +63,7 @@ func NewScen(n int, storeType string, o *ScenOpts) (*Scen, error) {
 		return nil, err
 	}
 	scenCounter++
+	sim.TheHooks.Reset()
 	s := &Scen{Env: env, Canon: sim.NewCanon(), Type: storeType, Label: fmt.Sprintf("s%d", scenCounter)}
 	for i := 0; i < n; i++ {
 		r, err := env.NewReplica(scenCounter*100+i, s.Label)
@@ -142,4 +143,36 @@ func hashesOf(es []ipfslog.Entry) []string {
 		out[i] = e.GetHash().String()
 	}
 	return out
+}
+
+// Universe accumulates every entry seen in a scenario and renders it once as a Coq
+// definition, so that cases can refer to entries by hash number.
+type Universe struct {
+	s     *Scen
+	seen  map[string]bool
+	terms []string
+	Name  string
+}
+
+func (s *Scen) NewUniverse() *Universe {
+	return &Universe{s: s, seen: map[string]bool{}, Name: "u_" + s.Label}
+}
+
+// Note records entries (idempotent) and returns their hash numbers in order.
+func (u *Universe) Note(es []ipfslog.Entry) []int {
+	out := make([]int, len(es))
+	for i, e := range es {
+		k := e.GetHash().String()
+		if !u.seen[k] {
+			u.seen[k] = true
+			u.terms = append(u.terms, u.s.Canon.CoqEntry(e, ""))
+		}
+		out[i] = u.s.Canon.Hash.ID(k)
+	}
+	return out
+}
+
+// Def renders the universe definition.
+func (u *Universe) Def() string {
+	return fmt.Sprintf("Definition %s : list entry := %s.", u.Name, sim.CoqList(u.terms))
 }
